@@ -103,3 +103,121 @@ Print Assumptions C18_path_marks.
 Print Assumptions C18_filter_paths.
 Print Assumptions C18_json_count.
 Print Assumptions C18_short_notation_injective.
+
+(* ------------------------------------------------------------------------------------------------------------
+   Extension (exporters regenerated: Lemmas/OutputGenLemmas.v about Gen/OutputGen.v, the structural reading of utils/output.py and printers/call_graph.py, item list per emitting statement) *)
+From Coq Require Import String List NArith ZArith Bool Arith.
+From Tealer Require Import Syntax Parse Cfg Analysis KeysGen Output OutputGen CfgLemmas SubLemmas GraphWf OutputLemmas OutputGenLemmas.
+
+(* regenerated _bb_to_dot: node and local edges of a block *)
+Theorem C18_bb_to_dot_gen_parsed :
+      forall (p : prog) (t : teal) (n : nat) (b : block) (color : bool) (bd : border),
+       parse_teal p = Ok t ->
+       tblock t n = Some b ->
+       bb_to_dot_gen t n
+         {|
+           cfg_ignore_edge := ignore_callsub t;
+           cfg_color_edges := color;
+           cfg_bb_border_color := fun _ : nat => ret bd
+         |} = Some (INode n bd :: map (edge_item t n) (local_out color t b)).
+Proof. exact @bb_to_dot_gen_parsed. Qed.
+
+(* its edges go exactly to the successors of a non-callsub block *)
+Theorem C18_bb_to_dot_gen_targets :
+      forall (p : prog) (t : teal) (n : nat) (b : block) (color : bool) (bd : border),
+       parse_teal p = Ok t ->
+       tblock t n = Some b ->
+       exists items : list item,
+         bb_to_dot_gen t n
+           {|
+             cfg_ignore_edge := ignore_callsub t;
+             cfg_color_edges := color;
+             cfg_bb_border_color := fun _ : nat => ret bd
+           |} = Some (INode n bd :: items) /\
+         (forall m : nat,
+          (exists (pt : nat) (c : ecolor), In (IEdge n m pt c) items) <->
+          is_callsub_block t b = false /\ In m (b_next b)).
+Proof. exact @bb_to_dot_gen_targets. Qed.
+
+(* regenerated full_cfg_to_dot: edges, nodes, clusters and borders of the model *)
+Theorem C18_full_cfg_gen_parsed :
+      forall (p : prog) (t : teal) (fn : option (list string)),
+       parse_teal p = Ok t ->
+       exists items : list item,
+         full_cfg_to_dot_gen t None fn = Some (out_of fn items) /\
+         edges_of items = full_cfg_colored_edges t /\
+         nodes_of items = full_cfg_nodes t /\
+         clusters_of items = enumerate_from 0 (full_cfg_clusters t) /\
+         node_borders_of items =
+         map (fun n : nat => (n, if full_cfg_dark_border t n then BSub else BBlack)) (full_cfg_nodes t).
+Proof. exact @full_cfg_to_dot_gen_parsed. Qed.
+
+(* exactly the edges of the graph, every block drawn once *)
+Theorem C18_full_cfg_gen_exact :
+      forall (p : prog) (t : teal),
+       parse_teal p = Ok t ->
+       exists items : list item,
+         full_cfg_to_dot_gen t None None = Some (Returned items) /\
+         (forall b b' : nat, (exists (pt : nat) (c : ecolor), In (IEdge b b' pt c) items) <-> cfg_edge t b b') /\
+         NoDup (nodes_of items) /\
+         (forall n : nat,
+          (exists bd : border, In (INode n bd) items) <-> (exists b : block, tblock t n = Some b)).
+Proof. exact @full_cfg_to_dot_gen_exact. Qed.
+
+(* regenerated subroutine_to_dot *)
+Theorem C18_subroutine_cfg_gen_exact :
+      forall (p : prog) (t : teal) (s : subroutine),
+       parse_teal p = Ok t ->
+       routine t s ->
+       exists items : list item,
+         subroutine_to_dot_gen t s None = Some items /\
+         (forall b b' : nat,
+          (exists (pt : nat) (c : ecolor), In (IEdge b b' pt c) items) <->
+          In b (s_blocks s) /\
+          (exists blk : block, tblock t b = Some blk /\ is_callsub_block t blk = false /\ In b' (b_next blk))) /\
+         nodes_of items = s_blocks s /\ box_part items = flat_map (box_items t) (sub_cfg_callboxes t s).
+Proof. exact @subroutine_to_dot_gen_edges_exact. Qed.
+
+(* regenerated _short_notation *)
+Theorem C18_short_notation_gen_eq :
+      forall path : list nat, short_notation_gen path = Some (short_notation path).
+Proof. exact @short_notation_gen_eq. Qed.
+
+(* regenerated filter_paths keeps exactly the paths whose short notation does not match *)
+Theorem C18_filter_paths_gen_spec :
+      forall (re_search : string -> string -> py bool) (search : string -> string -> bool)
+         (pattern : string) (paths : list (list nat)),
+       (forall text : string, re_search pattern text = Some (search pattern text)) ->
+       pattern <> "" ->
+       exists kept : list (list nat),
+         filter_paths_gen re_search paths pattern = Some kept /\
+         (forall path : list nat,
+          In path kept <-> In path paths /\ search pattern (short_notation path) = false).
+Proof. exact @filter_paths_gen_spec. Qed.
+
+(* regenerated generate_output: one file per path, numbered from 1, red border exactly on the blocks of the path *)
+Theorem C18_generate_output_gen_marks :
+      forall (p : prog) (t : teal) (det : string) (paths : list (list nat)) (dest : list string),
+       parse_teal p = Ok t ->
+       exists files : list dotout,
+         generate_output_gen t det paths dest = Some (negb (list_is_empty paths), files) /\
+         Datatypes.length files = Datatypes.length paths /\
+         (forall (i : nat) (path : list nat),
+          nth_error paths i = Some path ->
+          exists items : list item,
+            nth_error files i = Some (Written (dest ++ (det :: nil) ++ path_filename det (S i) :: nil) items) /\
+            edges_of items = path_cfg_colored_edges t /\
+            nodes_of items = path_cfg_nodes t /\
+            (forall n : nat,
+             In n (path_cfg_nodes t) ->
+             (In (INode n BRed) items <-> In n path) /\ (In (INode n BBlack) items <-> ~ In n path))).
+Proof. exact @generate_output_gen_marks. Qed.
+
+Print Assumptions C18_bb_to_dot_gen_parsed.
+Print Assumptions C18_bb_to_dot_gen_targets.
+Print Assumptions C18_full_cfg_gen_parsed.
+Print Assumptions C18_full_cfg_gen_exact.
+Print Assumptions C18_subroutine_cfg_gen_exact.
+Print Assumptions C18_short_notation_gen_eq.
+Print Assumptions C18_filter_paths_gen_spec.
+Print Assumptions C18_generate_output_gen_marks.
